@@ -375,7 +375,8 @@ def gen_doc(seed, docid, W, kind):
         ent = dict(ctl=rng.choice('bbbcgu'), addr=addr)
         pav = W - 2
         if kind == 'sweep':
-            ent['title'] = g.text_para(pav, tight=docid % 3)
+            # every 8th sweep document: a title with one word that cannot fit (the width exception + its warning)
+            ent['title'] = g.text_para(pav, tight=docid % 3) if docid % 8 else g.text_para(pav, long_word=True)
             ent['desc'] = [g.text_para(pav, tight=d) for d in (0, 1, 2)]
             ent['regs'] = g.registers()
             ent['start'] = [g.text_para(pav, tight=(docid + 1) % 3)]
@@ -399,6 +400,9 @@ def gen_doc(seed, docid, W, kind):
                          else [(2, False), (3, True), (0, True), (1, False)])
                 plans.append(dict(k=k, oplens=[rng.choice([6, 8, 10, 13]) for _ in range(k)], sweep=True,
                                   target=('asm', i % 4, False) if i < 4 else ('skool',) + slots[i - 4]))
+            if docid % 8 == 1:
+                # every 8th sweep document: a two-instruction comment with '}' on its first and '{' on its last line
+                plans.append(dict(k=2, oplens=[8, 8], target=None, special='close-then-open'))
         else:
             for i in range(rng.randint(1, 6)):
                 k = rng.choice([1, 1, 1, 2, 2, 3, 4, 5, 6])
@@ -449,7 +453,14 @@ def gen_doc(seed, docid, W, kind):
                 lens = g.rand_lens(lo, rng.choice([3, 8, 20, 40]))
                 if rng.random() < 0.07:
                     lens.insert(rng.randrange(len(lens) + 1), rng.choice([60, 100, W]))
+            if p.get('special') == 'close-then-open':
+                lens = [5] * (3 + 3 * skool_avail(conf, opw) // 6)
+                braces = False
             grp, a = g.group(ordinal, a, k, p['oplens'], lens, braces=braces, tag=tag)
+            if p.get('special') == 'close-then-open':
+                grp['words'][1] += '}'
+                grp['words'][-1] = '{' + grp['words'][-1]
+                grp['variant'] = 'close-then-open'
             if tag.startswith('tight-skool') and closeend and len(grp['words'][-1]) > 1:
                 # the comment ends with '}' -> the closing brace sna2skool adds needs a blank before it
                 grp['words'][-1] = grp['words'][-1][:-1] + '}'
@@ -810,7 +821,7 @@ def expected(it, ent, tool):
         for p in grp['mid']:
             add(p, 5, 'mid')
         items.append(dict(t='G', sec=0, w=it.codes(grp['words'], True), st=[], dotc=0, tabs=[], k=len(grp['ins']),
-                          ins=[[i['addr'], it.intern('OP ' + i['op'])] for i in grp['ins']],
+                          ins=[[i['addr'], it.intern('OP ' + i['op']), len(i['op'])] for i in grp['ins']],
                           name='group:%s:%s:k%d' % (grp['tag'], grp['variant'], len(grp['ins']))))
     for p in ent['end']:
         add(p, 6, 'end')
@@ -1205,6 +1216,8 @@ def run_doc(doc, wd):
                 key='%s:%s:W%d:d%d:e%d' % (tool, doc['kind'], conf['W'], doc['docid'], ei),
                 tool=tool, W=conf['W'] if tool in ('asm', 'skool') else 0,
                 cwmin=conf['cwmin'] if tool == 'asm' else conf['scwmin'] if tool == 'skool' else 0,
+                ind=conf['indw'], iw=conf['iw'] if tool == 'asm' else conf['siw'],
+                eop=max(len(i['op']) for g in ent['groups'] for i in g['ins']),
                 dot=it.code('.'), exc=excs[tool], exp=exp[tool][ei], out=o,
                 extra=len(outs[tool]) - len(doc['entries']),
                 doc=dict(seed=doc['seed'], docid=doc['docid'], kind=doc['kind'], W=conf['W'], conf=conf)))
